@@ -128,8 +128,12 @@ def main():
             raise Broken("model-build", log2[-3000:])
         res = spec["run"](ctx)
     except Broken as b:
+        fails = []
+        if b.what == "harness-hung" and b.schedule and pid in ("C18", "C13"):
+            # for these two properties the stuck schedule is itself the failing input: a call that never returns
+            fails = [dict(signature="schedule-hung", no_shrink=True, what=b.detail, name=b.schedule.get("name"), config=b.schedule.get("cfg"), events=b.schedule.get("events"))]
         res = dict(divergences=[dict(kind="broken", what=b.what, detail=b.detail, component=b.component or "api", schedule=b.schedule)],
-                   failures=[], evaluations=0, distinct=0, rule="", samples=[], traces=0, extra={})
+                   failures=fails, evaluations=0, distinct=0, rule="", samples=[], traces=0, extra={})
     except Exception as e:  # a crash of the machinery is a broken check, reported as such
         res = dict(divergences=[dict(kind="broken", what="checker-crash", detail=traceback.format_exc()[-3000:], component="api", schedule=None)],
                    failures=[], evaluations=0, distinct=0, rule="", samples=[], traces=0, extra={})
